@@ -69,9 +69,9 @@ CLAIMS = {
  'C11': ('pzv-hal', 'metamorphic two-fill testing (oracle-free) over the operation registry',
          'Each call runs twice from two independent garbage fills of every writable and every non-selected byte; the declared output must be identical, nothing outside the selected column may change, guard regions stay intact, and moving the target column moves the result.',
          'Covers the HAL registry (about 80 operations); core-level operations are exercised by the scheme-level parts listed in evidence.', 'DESIGN.md section 6 C11'),
- 'C12': ('pzv-hal', 'property-based testing with exact-size scratch windows inside guarded allocations',
-         'Every scratch-taking operation is run with Scratch::from_bytes over exactly the queried number of bytes (64-byte aligned, guard regions on both sides), with two scratch fills and with an enlarged window; any panic, guard damage or result difference is a violation.',
-         'HAL layer here; core/CKKS/bin-fhe pairs in the scheme-level parts listed in evidence.', 'DESIGN.md section 6 C12'),
+ 'C12': ('pzv-hal', 'property-based testing with exact-size scratch windows inside guarded allocations (HAL registry and 30 core-level / CMux operations)',
+         'Every scratch-taking operation is run with Scratch::from_bytes over exactly the queried number of bytes (64-byte aligned, guard regions on both sides), with two garbage fills of the window and of the destination and with an enlarged window; any panic, guard damage or result difference is a violation. Two engines: the HAL operation registry (pzv-hal) and 30 operations of poulpy-core and of the CMux family with generated gadget shapes, ranks and radices (pzv-scheme, sub-check core_exact_scratch); ./check merges their evidence.',
+         'At the core level the size queries of about twenty operations are insufficient for some shapes on the pinned tree; these are recorded known findings (one per operation, exact-scratch panics only): for those operations only result-independence from scratch / destination contents, panics with slack and guard damage are still enforced. CKKS-level queries are not exercised.', 'DESIGN.md section 6 C12 and 11.1'),
 }
 
 checks = []
@@ -97,7 +97,7 @@ m = {
  'hooks': {'guard': '--cfg poulpy_verif', 'enable': "RUSTFLAGS='--cfg poulpy_verif -C target-feature=+avx2,+fma' (set by /verif/check for every harness build)",
            'baseline_off_cmd': 'cd /repo && cargo test --workspace --no-fail-fast --offline', 'source_commits': hooks, 'add_only': True},
  'engines': [
-   {'name': 'pzv-scheme', 'path': 'harness/scheme', 'serves_properties': ['C01','C02','C03','C04','C05','C06','C19'], 'kind_free_text': 'proptest-driven binary on poulpy-core with exact phase recomputation from the clear secret'},
+   {'name': 'pzv-scheme', 'path': 'harness/scheme', 'serves_properties': ['C01','C02','C03','C04','C05','C06','C12','C19'], 'kind_free_text': 'proptest-driven binary on poulpy-core with exact phase recomputation from the clear secret'},
    {'name': 'pzv-ckks', 'path': 'harness/ckks', 'serves_properties': ['C16'], 'kind_free_text': 'proptest-driven binary on poulpy-ckks: program interpreter with a complex-number shadow and a metadata model'},
    {'name': 'pzv-serde', 'path': 'harness/serde', 'serves_properties': ['C18'], 'kind_free_text': 'fault-injecting property tests over all serialisable layouts'},
    {'name': 'pzv-bin', 'path': 'harness/binfhe', 'serves_properties': ['C13','C14','C15','C20'], 'kind_free_text': 'clear BDD evaluator + homomorphic word operations on the shipped parameter set'},
